@@ -151,6 +151,42 @@ func (w *world) snapshot() snap {
 	for _, r := range app.CustomGovKeeper.GetAllIdRecordsVerifyRequests(ctx) {
 		add(r.Address, "tip", int64(r.Id), r.Verifier, sdk.Coins{r.Tip})
 	}
+	for _, r := range app.RecoveryKeeper.GetAllRRHolderRewards(ctx) {
+		add(r.Holder, "rrreward", w.id(r.Holder), "", r.Rewards)
+	}
+	// spending pools: what each registered beneficiary could claim now (the formula of
+	// ClaimSpendingPool for a fixed-rate pool), keyed by the beneficiary
+	now := ctx.BlockTime().Unix()
+	for _, ci := range app.SpendingKeeper.GetAllClaimInfos(ctx) {
+		pool := app.SpendingKeeper.GetSpendingPool(ctx, ci.PoolName)
+		acc, err := sdk.AccAddressFromBech32(ci.Account)
+		if pool == nil || err != nil || pool.DynamicRate || pool.Beneficiaries == nil {
+			continue
+		}
+		weight := app.SpendingKeeper.GetBeneficiaryWeight(ctx, acc, *pool.Beneficiaries)
+		start, end := int64(pool.ClaimStart), now
+		if start < int64(ci.LastClaim) {
+			start = int64(ci.LastClaim)
+		}
+		if pool.ClaimEnd != 0 && end > int64(pool.ClaimEnd) {
+			end = int64(pool.ClaimEnd)
+		}
+		if weight.IsZero() || start >= end {
+			continue
+		}
+		dur := end - start
+		if dur > int64(pool.ClaimExpiry) {
+			dur = int64(pool.ClaimExpiry)
+		}
+		var cs sdk.Coins
+		for _, rate := range pool.Rates {
+			amt := rate.Amount.Mul(sdk.NewDec(dur)).Mul(weight).RoundInt()
+			if amt.IsPositive() {
+				cs = cs.Add(sdk.NewCoin(rate.Denom, amt))
+			}
+		}
+		add(ci.Account, "spclaim", w.nameID(ci.PoolName), "", cs)
+	}
 	return s
 }
 
